@@ -21,7 +21,7 @@ Spec == Init /\ [][Next]_vars
 C == FocusItems(f).items
 Ce == Foci[f].e
 Ev(e) == Eval(e, Env(BaseVars), Input)
-EvD(e, d) == Eval(e, Env([ints |-> BaseVars.ints, mixed |-> BaseVars.mixed, none |-> BaseVars.none, d |-> d]), Input)
+EvD(e, d) == Eval(e, Env([ints |-> BaseVars.ints, mixed |-> BaseVars.mixed, none |-> BaseVars.none, looks |-> BaseVars.looks, d |-> d]), Input)
 N(n) == Lit1(I(n))
 Fn0(fn) == Ev(Call(Ce, fn, <<>>))
 FnN(fn, n) == Ev(Call(Ce, fn, <<N(n)>>))
@@ -67,7 +67,10 @@ LawExclude ==
                       /\ \A j \in 1..Len(x.items) : ~Member(x.items[j], d)
                       /\ Len(x.items) = Cardinality({j \in 1..Len(C) : ~Member(C[j], d)})
 LawExtension ==
-  LET a == Ev(Call(Ce, "extension", <<Lit1(Str(UrlA))>>))
-      b == Ev(Call(Fld(Ce, "extension"), "where", <<Criteria[16].e>>))
-  IN a.k = "ok" /\ b.k = "ok" => SeqSame(a.items, b.items)
+  /\ LET a == Ev(Call(Ce, "extension", <<Lit1(Str(UrlA))>>))
+         b == Ev(Call(Fld(Ce, "extension"), "where", <<Criteria[16].e>>))
+     IN a.k = "ok" /\ b.k = "ok" => SeqSame(a.items, b.items)
+  /\ LET a == Ev(Call(Ce, "extension", <<Lit1(Str(UrlBirth))>>))
+         b == Ev(Call(Fld(Ce, "extension"), "where", <<Criteria[17].e>>))
+     IN a.k = "ok" /\ b.k = "ok" => SeqSame(a.items, b.items)
 =============================================================================
